@@ -1868,6 +1868,11 @@ class CParser:
             result = self._try_parse_paren_type_name()
             if result is not None:
                 typ, _, _ = result
+                if self._peek_type() == "LBRACE":
+                    # sizeof (type){...}: the operand is a compound literal
+                    # (with possible suffixes), not the type name.
+                    expr = self._parse_postfix_expression(compound_type=typ)
+                    return c_ast.UnaryOp(tok.value, expr, self._tok_coord(tok))
                 return c_ast.UnaryOp(tok.value, typ, self._tok_coord(tok))
             expr = self._parse_unary_expression()
             return c_ast.UnaryOp(tok.value, expr, self._tok_coord(tok))
